@@ -232,6 +232,14 @@ def apply_fault(v, d, hist, f, singletons):
         blk[key] = pairs
         return blk
     key = a["key"]
+    if kind == "repeated-wrong-type":
+        # the n-th occurrence of this repeated keyword in its block
+        n = sum(1 for j2, b in enumerate(acts[:i - 1], start=1)
+                if b["a"] == "repeated" and b["key"] == key and enclosing[j2] == enclosing[i])
+        lst = list(blk[key])
+        lst[n] = 12345
+        blk[key] = lst
+        return blk
     t = blk["__type__"]
     if kind == "enum-outside":
         blk[key] = "zzz_not_in_enum"
